@@ -212,9 +212,104 @@ Section Lockstep.
       cbn [rows_map] in Hr, Hd. rewrite map_app, concat_app, <- app_assoc in Hr.
       apply diffs_ok_app in Hd. destruct Hd as [Hd1 Hd2].
       cbn [length dec_rows].
-      destruct (dec_row_ok r prev dpx dpx n st (concat (map wd (rows_map fdiff false dpx r rows)) ++ B) row0 true) as (st1 & E1 & Hr1); try assumption.
+      destruct (dec_row_ok r prev dpx dpx n st (concat (map wd (rows_map fdiff false dpx r rows)) ++ B) row0 true) as (st1 & E1 & Hr1); try assumption; try (symmetry; assumption).
       rewrite E1. cbn [obind fst snd].
       destruct (IH r dpx n (length r) st1 B false) as (st2 & E2 & Hr2); try assumption; try reflexivity.
+      { rewrite Lr. assumption. }
       rewrite E2. cbn [obind fst snd]. exists st2. split; [reflexivity | exact Hr2].
   Qed.
 End Lockstep.
+
+(* ---------- byte-level facts, decided over the whole domain ---------- *)
+Lemma be16_all : forallb (fun v =>
+    (Z.lor (Z.shiftl (byte_of (Z.shiftr v 8)) 8) (byte_of v) =? v)
+    && (byte_of (Z.shiftr v 8) * 256 + byte_of v =? v)
+    && (Z.lor (byte_of v) (Z.shiftl (byte_of (Z.shiftr v 8)) 8) =? v)
+    && (byte_of (Z.shiftr v 8) <? 256) && (0 <=? byte_of (Z.shiftr v 8)))
+  (seqZ 0 (Z.to_nat 65536)) = true.
+Proof. vm_compute. reflexivity. Qed.
+
+Lemma be16_val : forall v, 0 <= v < 65536 ->
+  Z.lor (Z.shiftl (byte_of (Z.shiftr v 8)) 8) (byte_of v) = v /\
+  byte_of (Z.shiftr v 8) * 256 + byte_of v = v /\
+  Z.lor (byte_of v) (Z.shiftl (byte_of (Z.shiftr v 8)) 8) = v.
+Proof.
+  intros v Hv.
+  assert (Hin : In v (seqZ 0 (Z.to_nat 65536))) by (apply In_seqZ; lia).
+  pose proof (proj1 (forallb_forall _ _) be16_all v Hin) as H.
+  rewrite !andb_true_iff in H. destruct H as [[[[H1 H2] H3] _] _]. lia.
+Qed.
+
+Lemma le16_all : forallb (fun lo => forallb (fun hi =>
+    let v := Z.lor lo (Z.shiftl hi 8) in
+    (byte_of v =? lo) && (byte_of (Z.shiftr v 8) =? hi) && (0 <=? v) && (v <? 65536))
+    (seqZ 0 256)) (seqZ 0 256) = true.
+Proof. vm_compute. reflexivity. Qed.
+
+Lemma le16_val : forall lo hi, 0 <= lo < 256 -> 0 <= hi < 256 ->
+  let v := Z.lor lo (Z.shiftl hi 8) in
+  byte_of v = lo /\ byte_of (Z.shiftr v 8) = hi /\ 0 <= v < 65536.
+Proof.
+  intros lo hi Hlo Hhi.
+  assert (Hin1 : In lo (seqZ 0 256)) by (apply In_seqZ; lia).
+  assert (Hin2 : In hi (seqZ 0 256)) by (apply In_seqZ; lia).
+  pose proof (proj1 (forallb_forall _ _) le16_all lo Hin1) as H. cbv beta in H.
+  pose proof (proj1 (forallb_forall _ _) H hi Hin2) as H'. cbv beta zeta in H'.
+  rewrite !andb_true_iff in H'. cbv zeta. lia.
+Qed.
+
+Lemma byte_of_small : forall x, 0 <= x < 256 -> byte_of x = x.
+Proof. intros. rewrite byte_of_mod. apply Z.mod_small. assumption. Qed.
+Lemma byte_of_range : forall x, 0 <= byte_of x < 256.
+Proof. intros. rewrite byte_of_mod. apply Z.mod_pos_bound. lia. Qed.
+
+(* ---------- chunk ---------- *)
+Lemma firstn_len_app : forall {A} (a b : list A), firstn (length a) (a ++ b) = a.
+Proof. induction a; intros; simpl; [reflexivity | rewrite IHa; reflexivity]. Qed.
+Lemma skipn_len_app : forall {A} (a b : list A), skipn (length a) (a ++ b) = b.
+Proof. induction a; intros; simpl; [reflexivity | apply IHa]. Qed.
+
+Lemma chunk_f_concat : forall {A} fuel k (l : list A), (0 < k)%nat -> (length l <= fuel)%nat ->
+  concat (chunk_f fuel k l) = l.
+Proof.
+  induction fuel; intros k l Hk Hl.
+  - destruct l; [reflexivity | simpl in Hl; lia].
+  - cbn [chunk_f]. destruct l as [|x l]; [reflexivity|].
+    cbn [concat]. rewrite IHfuel; [apply firstn_skipn | assumption |].
+    rewrite skipn_length. cbn [length] in *. lia.
+Qed.
+
+Lemma chunk_f_shape : forall {A} m fuel k (l : list A), (0 < k)%nat -> length l = (m * k)%nat ->
+  (m <= fuel)%nat ->
+  length (chunk_f fuel k l) = m /\ Forall (fun c => length c = k) (chunk_f fuel k l).
+Proof.
+  induction m; intros fuel k l Hk Hl Hf.
+  - destruct l; [|simpl in Hl; lia]. destruct fuel; cbn [chunk_f]; split; (reflexivity || constructor).
+  - destruct fuel; [lia|]. cbn [chunk_f].
+    destruct l as [|x l]; [simpl in Hl; lia|].
+    destruct (IHm fuel k (skipn k (x :: l)) Hk) as [E1 E2].
+    + rewrite skipn_length, Hl. lia.
+    + lia.
+    + split; [cbn [length]; rewrite E1; reflexivity|].
+      constructor; [|assumption]. apply firstn_length_le. rewrite Hl. lia.
+Qed.
+
+Lemma In_firstn' : forall {A} k (l : list A) y, In y (firstn k l) -> In y l.
+Proof.
+  induction k; intros l y H; [destruct H|]. destruct l; [destruct H|].
+  destruct H; [left; assumption | right; apply IHk; assumption].
+Qed.
+Lemma In_skipn' : forall {A} k (l : list A) y, In y (skipn k l) -> In y l.
+Proof.
+  induction k; intros l y H; [exact H|]. destruct l; [destruct H|]. right. apply IHk. exact H.
+Qed.
+
+Lemma chunk_f_Forall : forall {A} (Q : A -> Prop) fuel k (l : list A), Forall Q l ->
+  Forall (Forall Q) (chunk_f fuel k l).
+Proof.
+  induction fuel; intros k l H; cbn [chunk_f]; [constructor|].
+  destruct l as [|x l]; [constructor|]. constructor.
+  - apply Forall_forall. intros y Hy. apply (proj1 (Forall_forall _ _) H). eapply In_firstn'. exact Hy.
+  - apply IHfuel. apply Forall_forall. intros y Hy. apply (proj1 (Forall_forall _ _) H).
+    eapply In_skipn'. exact Hy.
+Qed.
